@@ -15,6 +15,7 @@ def main():
     try:
         if a.replay:
             rp = json.load(open(a.replay))
+            chk.is_replay = True      # a replay describes one case: it must not overwrite the evidence of the last full run
             chk.proof()
             mod.replay(chk, rp)
         else:
